@@ -94,6 +94,46 @@ example : runET (faultySys false) 5 St.init (.op2 0 (.ref 0 0) (.ref 1 0)) =
     some (.ok [21], false, ⟨[((1, 0), ([11], false))], [], []⟩, [((0, 0), .ok [10]), ((1, 0), .ok [11])]) := by
   simp [runET, run, runE, faultySys, lookup, store, St.init, Sys.slot]
 
+/-! ## the whole recorded trace of a request (`runL`: one entry per calculation opened) -/
+
+/-- Instrumenting the machine at every level changes nothing: `runL` computes what `run` computes. -/
+theorem C17_trace_transparent (sys : Sys P) (n : Nat) (s : St P) (v : Nat) (p : P) :
+    (runL sys n s v p).map eraseL = run sys n s v p := runL_erase sys n s v p
+
+/-- The recorded trace, for ALL rule systems, inputs and states, successful request or not: EVERY
+    calculation recorded during a request — at every depth — lists either no read at all or exactly
+    the variable-at-period reads of the formula in force at its node, in order, each with the value
+    returned (all of them when the calculation completed; when it failed, a prefix whose last read
+    is the one that failed); every read listed is itself a recorded calculation carrying the same
+    result; the first entry is the request itself with the result returned to the caller. -/
+theorem C17_trace_every_calculation (sys : Sys P) (n : Nat) (s : St P) (v : Nat) (p : P) (r : Res) (g : Bool)
+    (s' : St P) (l : Log P) (h : runL sys n s v p = some (r, g, s', l)) :
+    (∀ en ∈ l, TraceOK sys en) ∧
+    (∀ en ∈ l, ∀ kr ∈ en.2.2, ∃ t, (kr.1, kr.2, t) ∈ l) ∧
+    (∃ t rest, l = ((v, p), r, t) :: rest) := by
+  obtain ⟨h1, h2⟩ := runL_ok sys n s v p r g s' l h
+  obtain ⟨t, rest, h3, _⟩ := runL_head sys n s v p r g s' l h
+  exact ⟨h1, h2, t, rest, h3⟩
+
+/-- A value served from the cache, an input, and the default of a variable without formula in
+    force open no further calculation: their trace is the single entry, with no read. -/
+theorem C17_trace_cached_read_has_no_children (sys : Sys P) (n : Nat) (s : St P) (v : Nat) (p : P) (r : Res) (g : Bool)
+    (s' : St P) (l : Log P) (h : runL sys n s v p = some (r, g, s', l))
+    (hc : lookup s.cache (sys.slot (v, p)) ≠ none ∨ sys.input v p ≠ none ∨ sys.formula v p = none) :
+    l = [((v, p), r, [])] := by
+  obtain ⟨t, rest, h3, h4⟩ := runL_head sys n s v p r g s' l h
+  obtain ⟨rfl, rfl⟩ := h4 hc
+  exact h3
+
+/-- `v1 = v0 + (1 unless fault 7)` with input `v0 = 10`: the log of the request for `v1`, then of
+    the same request again (served from the cache: one entry, no read) -/
+example : runL (faultySys false) 5 St.init 1 0 =
+    some (.ok [11], false, ⟨[((1, 0), ([11], false))], [], []⟩,
+      [((1, 0), .ok [11], [((0, 0), .ok [10])]), ((0, 0), .ok [10], [])]) ∧
+    runL (faultySys false) 5 ⟨[((1, 0), ([11], false))], [], []⟩ 1 0 =
+    some (.ok [11], false, ⟨[((1, 0), ([11], false))], [], []⟩, [((1, 0), .ok [11], [])]) := by
+  constructor <;> simp [runL, runLE, faultySys, lookup, store, St.init, Sys.slot]
+
 /-! ## the two-tier value store of a holder -/
 section store
 open OFCore.HolderStore
